@@ -115,7 +115,13 @@ def run_one(ob, seed, tier):
     if getattr(ob, "native_only", False):
         return run_native_only(ob)
     t0 = time.time()
-    res = explore(lambda: ob.run(_symctx()), timeout=ob.timeout)
+    try:
+        res = explore(lambda: ob.run(_symctx()), timeout=ob.timeout)
+    except Exception as e:  # noqa: BLE001 - e.g. a symbolic value of an earlier path met outside the tracer (state kept
+        # by the code under test between runs): the solver verdict is lost, the native probes below still run
+        from types import SimpleNamespace
+        res = SimpleNamespace(status="inconclusive", reason="exploration raised %s: %s" % (type(e).__name__, e), paths=0, forks=0,
+                              solver_checks=0, solver_s=0.0, cpu_s=0.0, cex=None, info=None, notes=[], exc=traceback.format_exc()[-1500:], vars={})
     out = {
         "oid": ob.oid, "status": res.status, "reason": res.reason, "paths": res.paths, "forks": res.forks,
         "solver_checks": res.solver_checks, "solver_s": round(res.solver_s, 3), "cpu_s": round(res.cpu_s, 3),
@@ -135,6 +141,17 @@ def run_one(ob, seed, tier):
                 if not ok:
                     out["native_bad"] = {"values": used or p, "info": _jsonable(info)}
                     break
+        elif res.status == "inconclusive" and ob.r4:
+            # no solver verdict: the native probes are still a real test of the real code (a failure is a reproduction)
+            for p in ([{}] + r4_points(res.vars, seed, ob.oid))[:12]:
+                try:
+                    ok, info, used = native(ob, p)
+                except Exception as e:  # noqa: BLE001
+                    continue
+                out["native_runs"] += 1
+                if not ok:
+                    out["native_bad"] = {"values": used or p, "info": _jsonable(info)}
+                    break
         elif res.status == "refuted":
             vals = dict(res.cex or {})
             try:
@@ -146,6 +163,13 @@ def run_one(ob, seed, tier):
             except Exception as e:  # noqa: BLE001
                 out["replayed"] = None
                 out["replay_info"] = "native replay raised %s: %s\n%s" % (type(e).__name__, e, traceback.format_exc()[-800:])
+            except BaseException as e:  # noqa: BLE001
+                if type(e).__name__ != "CrossHairInternal":
+                    raise
+                # the code under test kept objects of the symbolic run (module-level state): this worker cannot replay
+                # natively any more; the parent process, which never ran anything symbolically, does it
+                out["replay_in_parent"] = True
+                out["cex"] = vals
     finally:
         sys.setprofile(None)
     out["funcs"] = sorted(_FUNCS)
@@ -227,11 +251,21 @@ def run_pool(obs, seed, tier, jobs, progress=True):
                     w["p"].kill()
                     neww = spawn()
                     w.update(neww)
+                if r.get("replay_in_parent"):
+                    try:
+                        ok, info, used = native(obs[i], dict(r["cex"] or {}))
+                        r["replayed"] = (not ok)
+                        r["replay_info"] = _jsonable(info)
+                        r["cex"] = used or r["cex"]
+                        r["native_runs"] = r.get("native_runs", 0) + 1
+                    except Exception as e:  # noqa: BLE001
+                        r["replayed"] = None
+                        r["replay_info"] = "native replay (parent) raised %s: %s" % (type(e).__name__, e)
                 results[i] = r
                 done += 1
                 w["task"] = None
                 if os.environ.get("VERIF_STOP_AT_FIRST") and ((r["status"] == "refuted" and r.get("replayed") is True)
-                                                                or (r["status"] == "confirmed" and r.get("native_bad"))):
+                                                                or (r["status"] in ("confirmed", "inconclusive") and r.get("native_bad"))):
                     # seeded-change evaluation only: one replayed violation decides "caught"; the rest is not explored
                     for j in pending:
                         results[j] = _dead(obs[j], "skipped: VERIF_STOP_AT_FIRST after a violation")
@@ -356,6 +390,11 @@ def main(argv=None):
         if r["status"] == "refuted":
             if r["replayed"] is True:
                 violations.append((r, "solver counterexample, replayed natively"))
+            elif r.get("replay_in_parent"):
+                # the worker's interpreter was contaminated by state the code under test kept from the symbolic run and
+                # the replay in the parent did not fail: no reproduction, so no verdict (reported as inconclusive)
+                r["status"] = "inconclusive"
+                r["reason"] = "counterexample found, but the code under test keeps state between runs and the clean replay held"
             else:
                 harness_errors.append("counterexample of %s does not reproduce natively: cex=%s exc=%s info=%s" % (
                     r["oid"], r["cex"], r["exc"], r.get("replay_info")))
@@ -363,6 +402,10 @@ def main(argv=None):
             r["cex"] = r["native_bad"]["values"]
             r["replay_info"] = r["native_bad"]["info"]
             violations.append((r, "native cross-check (R4) of a solver-confirmed obligation"))
+        elif r["status"] == "inconclusive" and r["native_bad"]:
+            r["cex"] = r["native_bad"]["values"]
+            r["replay_info"] = r["native_bad"]["info"]
+            violations.append((r, "native run of an obligation whose symbolic exploration was inconclusive"))
 
     for r, how in violations:
         fn = os.path.join(HERE, "replays", "%s_%s.json" % (pid, "".join(c if c.isalnum() else "_" for c in r["oid"])))
